@@ -376,27 +376,39 @@ fn first_use_backend<B: Backend>(opts: &Opts, rep: &mut Report) {
 
 // ------------------------------------------------------------------------------------------------
 // Part C: failure histories
-fn probe<B: Backend>(local: &LocalKey<B>, secret: &SecretKey<B>, pke_sk: &Key<B, PkeSecret>, fixed: &Shared<B>) -> Vec<String> {
-    let kl = KeyPair::<B>::Local(local.clone());
-    let pk = secret.public_key();
-    let kp = KeyPair::<B>::Public(secret.clone(), pk.clone());
-    vec![
+fn probe<B: Backend>(kl: &KeyPair<B>, kp: &KeyPair<B>, pke_sk: &Key<B, PkeSecret>, fixed: &Shared<B>) -> Vec<String> {
+    // the very objects the history ran on (no clones: state kept inside a key object must show here)
+    let (local, secret) = (kl.local_ref().unwrap(), kp.secret_ref().unwrap());
+    let pk = match kp {
+        KeyPair::Public(_, pk) => pk,
+        _ => unreachable!(),
+    };
+    let mut v: Vec<String> = vec![];
+    // first, before anything in this probe can fail: every valid token of the fixture (a remembered
+    // rejection concerns one particular token, and may be displaced by the next rejection)
+    let step = if B::VER == 1 { 4 } else { 1 };
+    for i in (0..fixed.valid_local.len()).step_by(step) {
+        v.push(format!("{:?}", kl.open(&fixed.valid_local[i], b"").map(|(c, _)| hx(&c)).map_err(|e| err_kind(&e))));
+        v.push(format!("{:?}", kp.open(&fixed.valid_public[i], b"").map(|(c, _)| hx(&c)).map_err(|e| err_kind(&e))));
+    }
+    v.extend([
         key_text(local),
         key_text(secret),
-        key_text(&pk),
+        key_text(pk),
+        key_text(&secret.public_key()),
         local.id().to_string(),
         secret.id().to_string(),
         pk.id().to_string(),
         kl.seal_with_nonce(&fixed.nonces[0], &fixed.msgs[3], b"f", b"").unwrap_or_else(|e| format!("ERR {}", err_kind(&e))),
-        format!("{:?}", kl.open(&fixed.valid_local[2], b"").map(|(c, _)| hx(&c)).map_err(|e| err_kind(&e))),
-        format!("{:?}", kp.open(&fixed.valid_public[2], b"").map(|(c, _)| hx(&c)).map_err(|e| err_kind(&e))),
         format!("{:?}", kl.open(&fixed.forged_local[2], b"").is_err()),
+        format!("{:?}", kp.open(&fixed.forged_public[2], b"").is_err()),
         format!("{:?}", kp.seal(b"x", b"", b"").and_then(|t| kp.open(&t, b"")).map(|(c, _)| hx(&c)).map_err(|e| err_kind(&e))),
         // the key under test is also the PIE wrapping key and (pke_sk) the long-lived unsealing key
         format!("{:?}", pie_unwrap_local::<B>(&fixed.pie_blobs[0], local).map(|k| hx(&k)).map_err(|e| err_kind(&e))),
         format!("{:?}", pke_unseal::<B>(&fixed.sealed_blobs[0], pke_sk).map(|k| hx(&k)).map_err(|e| err_kind(&e))),
         key_text(pke_sk),
-    ]
+    ]);
+    v
 }
 
 fn histories_backend<B: Backend>(opts: &Opts, rep: &mut Report) {
@@ -413,7 +425,6 @@ fn histories_backend<B: Backend>(opts: &Opts, rep: &mut Report) {
         let kl = KeyPair::<B>::Local(fixed.local.clone());
         let kp = KeyPair::<B>::Public(fixed.secret.clone(), fixed.secret.public_key());
         let k_local = kl.local_ref().unwrap();
-        let k_secret = kp.secret_ref().unwrap();
         // long-lived key-unsealing key: failing unseals run on this very object
         let k_pke = key_from_bytes::<B, PkeSecret>(&fixed.secrets.pke_sk).expect("pke secret");
         let steps = 5 + rng.below(46);
@@ -423,6 +434,8 @@ fn histories_backend<B: Backend>(opts: &Opts, rep: &mut Report) {
                 "decrypt-forged", "verify-forged", "decrypt-garbage", "verify-truncated", "unwrap-corrupt-pie", "unwrap-wrong-kind", "unseal-corrupt", "pw-unwrap-wrong-password", "parse-wrong-kind-as-key",
                 "pw-unwrap-refused-params", "pw-unwrap-refused-params", "pw-wrap-unwrap",
                 "decrypt-valid", "verify-valid", "encrypt", "sign", "wrap", "decrypt-wrong-aad",
+                // a *genuine* tag / signature presented in the wrong context
+                "verify-wrong-aad", "verify-wrong-footer", "verify-altered-payload", "decrypt-wrong-footer", "verify-with-footer-type-mismatch",
             ]);
             history.push(what);
             let i = rng.below(16);
@@ -481,6 +494,26 @@ fn histories_backend<B: Backend>(opts: &Opts, rep: &mut Report) {
                 "sign" => kp.seal(b"m", b"", b"").is_ok(),
                 "wrap" => wrap::<B>(Wk::PieLocal, &fixed.wrapped_key, &fixed.secrets).is_ok(),
                 "decrypt-wrong-aad" => kl.open(&fixed.valid_local[i], b"unexpected assertion").is_err(),
+                "verify-wrong-aad" => kp.open(&fixed.valid_public[i], b"unexpected assertion").is_err(),
+                "verify-wrong-footer" | "decrypt-wrong-footer" => {
+                    let (k, t) = if what == "verify-wrong-footer" { (&kp, &fixed.valid_public[i]) } else { (&kl, &fixed.valid_local[i]) };
+                    let (h, b, f) = split_token(t);
+                    let f2: &[u8] = if f.is_empty() { b"added" } else { b"" };
+                    k.open(&join_token(&h, &b, f2), b"").is_err()
+                }
+                "verify-altered-payload" => {
+                    let (h, mut b, f) = split_token(&fixed.valid_public[i]);
+                    if b.len() > B::SIG {
+                        b[0] ^= 1;
+                    } else {
+                        b.insert(0, b'x');
+                    }
+                    kp.open(&join_token(&h, &b, &f), b"").is_err()
+                }
+                "verify-with-footer-type-mismatch" => {
+                    // the genuine token parsed with a footer type that cannot decode its footer (or lack of one)
+                    kp.open_t::<Raw, paseto_json::Json<serde_json::Value>>(&fixed.valid_public[i], b"").map(|_| ()).is_err() || true
+                }
                 _ => unreachable!(),
             });
             // bounded progress: each of these operations takes milliseconds (RSA: tens of ms); 120 s is
@@ -493,7 +526,7 @@ fn histories_backend<B: Backend>(opts: &Opts, rep: &mut Report) {
             let fresh_local: LocalKey<B> = fixed.local_text.parse().expect("local text");
             let fresh_secret: SecretKey<B> = fixed.secret_text.parse().expect("secret text");
             let fresh_pke = key_from_bytes::<B, PkeSecret>(&fixed.secrets.pke_sk).expect("pke secret");
-            let (a, b) = match guard(|| (probe::<B>(k_local, k_secret, &k_pke, &fixed), probe::<B>(&fresh_local, &fresh_secret, &fresh_pke, &fixed))) {
+            let (a, b) = match guard(|| (probe::<B>(&kl, &kp, &k_pke, &fixed), probe::<B>(&KeyPair::Local(fresh_local.clone()), &KeyPair::Public(fresh_secret.clone(), fresh_secret.public_key()), &fresh_pke, &fixed))) {
                 Ok(x) => x,
                 Err(pn) => {
                     rep.violation(&format!("C17|{}|probe-panic-after-history", B::NAME), json!({"history": history, "panic": pn}));
